@@ -1446,3 +1446,57 @@ Lemma r_removeall_step c0 c t c' qa rest0 :
           qpop (getq c' qa) = qpop (getq c qa) ++ [v] /\ qtok (getq c' qa) = qtok (getq c qa) /\
           tph (gett c' t) = PIdle /\ tcalls (gett c' t) = tcalls (gett c t)) ).
 Proof. intros Hi Hr. apply removeall_step. eapply reachable_inv2; eauto. Qed.
+
+(* ------------------------------------------------------------------------- *)
+(* at-most-once delivery for every program (RemoveAll allowed)               *)
+(* ------------------------------------------------------------------------- *)
+
+(* one step adds the popped head (if any) to [popped]; it adds it to [delivered] as well unless
+   the step is the discard step of a RemoveAll *)
+Lemma step_delivered_any c t c' :
+  Inv2 c -> step c t = Some c' ->
+  exists l d, Permutation (delivered c') (delivered c ++ l) /\
+              Permutation (popped c') (popped c ++ l ++ d).
+Proof.
+  intros [HI HR] H. pose proof (step_tid _ _ _ H) as Hlt.
+  apply step_stepR in H; stepR_cases H;
+    try (exists [], []; split;
+         [ eapply delivered_upd; [reflexivity | exact Hlt |];
+           rewrite ?tres_finish_head; simpl; rewrite ?heads_app; simpl;
+           rewrite ?app_nil_r; reflexivity
+         | rewrite !app_nil_r;
+           match goal with |- Permutation ?a ?b =>
+             replace a with b; [apply Permutation_refl | symmetry] end;
+           first [ reflexivity
+                 | eapply (popped_upd_same c _ q); [reflexivity | reflexivity] ] ]; fail).
+  - (* the pop step of RemoveHead *)
+    exists [v], []. split.
+    + eapply delivered_upd; [reflexivity | exact Hlt |].
+      rewrite tres_finish_head, heads_app. reflexivity.
+    + assert (Hq : q < length (queues c)) by (apply getq_vals_inrange; rewrite Hv; discriminate).
+      rewrite app_nil_r.
+      apply (concat_set_nth_ext qpop q _ (queues c) dummyq [v]); auto.
+  - (* the discard step of RemoveAll *)
+    exists [], [v]. split.
+    + eapply delivered_upd; [reflexivity | exact Hlt |]. simpl. now rewrite app_nil_r.
+    + assert (Hq : q < length (queues c)) by (apply getq_vals_inrange; rewrite Hv; discriminate).
+      apply (concat_set_nth_ext qpop q _ (queues c) dummyq [v]); auto.
+Qed.
+
+(* nothing is delivered that was not popped, and no popped value is delivered twice: the
+   delivered values together with some others (those discarded by RemoveAll) are exactly
+   the popped values *)
+Theorem at_most_once c0 c :
+  initial c0 -> reachable c0 c -> exists d, Permutation (delivered c ++ d) (popped c).
+Proof.
+  intros Hi [s <-].
+  cut (Inv2 (run c0 s) /\ exists d, Permutation (delivered (run c0 s) ++ d) (popped (run c0 s))); [tauto|].
+  apply (run_ind_inv (fun c => Inv2 c /\ exists d, Permutation (delivered c ++ d) (popped c))).
+  - intros c t c' [HI [d HP]] H. split; [eapply step_preserves_inv2; eauto|].
+    destruct (step_delivered_any c t c' HI H) as (l & d' & A & B).
+    exists (d ++ d'). rewrite A, B.
+    rewrite <- HP. rewrite <- !app_assoc. apply Permutation_app_head.
+    rewrite !app_assoc. apply Permutation_app_tail. apply Permutation_app_comm.
+  - split; [split; [now apply initial_inv | now apply initial_rng]|].
+    exists []. destruct (initial_delivered c0 Hi) as [-> ->]. constructor.
+Qed.
